@@ -267,6 +267,41 @@ pub mod thread {
         })
     }
 
+    pub use shuttle::thread::{Result, ThreadId};
+    pub use std::thread::{available_parallelism, panicking};
+
+    /// `std::thread::Builder` (the name is kept; a stack size means nothing here)
+    #[derive(Debug, Default)]
+    pub struct Builder {
+        name: Option<String>,
+    }
+
+    impl Builder {
+        pub fn new() -> Builder {
+            Builder { name: None }
+        }
+        pub fn name(mut self, name: String) -> Builder {
+            self.name = Some(name);
+            self
+        }
+        pub fn stack_size(self, _size: usize) -> Builder {
+            self
+        }
+        pub fn spawn<F, T>(self, f: F) -> std::io::Result<JoinHandle<T>>
+        where
+            F: FnOnce() -> T + Send + 'static,
+            T: Send + 'static,
+        {
+            Ok(spawn(f))
+        }
+    }
+
+    /// a park with a timeout: a timed wait on the virtual clock that an `unpark` does not cut
+    /// short (spurious returns are allowed by the contract; an early one never happens here)
+    pub fn park_timeout(d: std::time::Duration) {
+        sleep(d)
+    }
+
     pub fn sleep(d: std::time::Duration) {
         // virtual sleep: a timed wait nobody notifies
         let m = super::sync::Mutex::new(());
@@ -278,7 +313,8 @@ pub mod thread {
 
 pub mod sync {
     use super::*;
-    pub use std::sync::{Arc, LockResult, PoisonError, TryLockError, TryLockResult, Weak};
+    pub use shuttle::sync::{Barrier, BarrierWaitResult, Once, RwLock, RwLockReadGuard, RwLockWriteGuard};
+    pub use std::sync::{Arc, LockResult, OnceLock, PoisonError, TryLockError, TryLockResult, Weak};
     pub mod atomic {
         pub use shuttle::sync::atomic::*;
     }
